@@ -298,6 +298,17 @@ func (s *Server) Revive() {
 	s.mu.Unlock()
 }
 
+// DropParked discards every parked (received but unprocessed) request: the requests were
+// lost with their connections before the server read them.
+func (s *Server) DropParked() {
+	s.mu.Lock()
+	for _, cs := range s.conns {
+		cs.parked = nil
+		s.reapZombie(cs)
+	}
+	s.mu.Unlock()
+}
+
 // KillConns drops all current connections without marking the server crashed.
 func (s *Server) KillConns() {
 	s.mu.Lock()
